@@ -131,6 +131,27 @@ Definition with_root (k : br_case) (c : cons) : cons :=
       end
   end.
 
+(* … and below the LIB block the hub may still retain final ancestors (kept final blocks; in discovery mode blocks that
+   arrived before the LIB was found): they belong to the retained canonical chain a from-number / through-cursor request is
+   served from, although the never-disconnected subscriber was never given them *)
+Fixpoint extend_down (fuel : nat) (U : list block) (stored : list N) (c : cons) : cons :=
+  match fuel with
+  | O => c
+  | S f =>
+      match rev (cs_stack c) with
+      | bottom :: _ =>
+          match lookup (bparent bottom) U with
+          | Some p => if memN (bid p) stored && negb (bid p =? bid bottom) && (bnum p <? bnum bottom)
+                      then extend_down f U stored (mkCons (cs_stack c ++ [p]) (S (cs_nf c)) true)
+                      else c
+          | None => c
+          end
+      | [] => c
+      end
+  end.
+Definition with_retained (k : br_case) (a : ans) (c : cons) : cons :=
+  extend_down (length (r_hist k)) (r_hist k) (a_stored a) (with_root k c).
+
 Definition c05_answer_ok (k : br_case) (a : ans) : bool :=
   let all := stream_events (r_steps k) (length (r_steps k)) in
   let evm := stream_events (r_steps k) (N.to_nat (a_m a)) in
@@ -166,7 +187,7 @@ Definition c05_answer_ok (k : br_case) (a : ans) : bool :=
                  the first delivered block aside") *)
               match cons_fold cons0 (filter (fun e => negb (step_eqb (estep e) SIrr && (bnum (eblk e) <? a_start a))) (a_events a)) with
               | Some c' =>
-                  let cmr := with_root k cm in
+                  let cmr := with_retained k a cm in
                   let exp := filter (fun b => a_start a <=? bnum b) (cs_stack cmr) in
                   eqb_list (ids (cs_stack c')) (ids exp) &&
                   Nat.eqb (cs_nf c') (length (filter (fun b => a_start a <=? bnum b) (finals_of cmr)))
@@ -213,7 +234,7 @@ Definition c09_answer_ok (k : br_case) (a : ans) : bool :=
   match cons_fold cons0 evm with
   | None => false
   | Some cm0 =>
-      let cm := with_root k cm0 in
+      let cm := with_retained k a cm0 in
       let canon := rev (cs_stack cm) in                 (* oldest first *)
       let servable := existsb (fun b => (bnum b =? a_start a) && memN (bid b) (a_stored a) && (a_lowest a <=? bnum b)) canon in
       if a_kind a =? 2 then
